@@ -23,6 +23,34 @@ def operand_pool():
     return p
 
 
+SHARED_BASES = [I(2), I(3), I(6), I(12), I(-2), I(-8), FR(Fraction(1, 2)), FR(Fraction(2, 3)), FR(Fraction(-3, 4)), FR(Fraction(9, 4)),
+                CX(1, 1), CX(0, 2), CX(1, -2), CX(Fraction(1, 2), Fraction(1, 3)), CX(-3, 4), K('I'), K('pi'), K('E'), X, Y,
+                ('add', X, I(1)), ('mul', X, Y), ('mul', I(2), X), ('sin', X), ('func', 'f', X), ('add', X, Y), ('mul', CX(0, 1), X),
+                ('pow', X, I(2)), ('exp', X), ('add', K('pi'), I(1))]
+SHARED_EXPS = [Fraction(1, 2), Fraction(1, 2), Fraction(-1, 2), Fraction(1, 3), Fraction(2, 3), Fraction(-1, 3), Fraction(3, 2), Fraction(1, 4),
+               Fraction(3, 4), Fraction(1, 6), Fraction(5, 6), Fraction(-3, 2), Fraction(1), Fraction(2), Fraction(-1)]
+
+
+def shared_base_powers(rng):
+    """2-3 powers of one base (numeric of every exact kind, or symbolic) with rational exponents that often sum to an integer."""
+    b = rng.choice(SHARED_BASES)
+    n = rng.choice((2, 2, 3))
+    qs = [rng.choice(SHARED_EXPS) for _ in range(n)]
+    if rng.random() < 0.6:       # force an integer exponent sum
+        tot = sum(qs[:-1])
+        target = rng.choice((0, 1, 1, 2, -1))
+        qs[-1] = Fraction(target) - tot
+    out = []
+    for q in qs:
+        if q == 0:
+            continue
+        if rng.random() < 0.15:
+            out.append(('pow', b, ('add', FR(q), rng.choice((X, Y)))))
+        else:
+            out.append(('pow', b, FR(q)) if q != 1 else b)
+    return out
+
+
 def bracketings(op, items, rng):
     """One random binary bracketing of the ordered items."""
     items = list(items)
@@ -51,6 +79,11 @@ class C(Check):
             ops = [rng.choice(pool) for _ in range(n)]
             if rng.random() < 0.4:
                 ops[rng.randrange(n)] = ops[rng.randrange(n)]  # repeat an operand
+            if rng.random() < 0.45:
+                sh = shared_base_powers(rng)
+                ops = (sh + ops)[:max(n, len(sh) + 1)]
+                rng.shuffle(ops)
+                n = len(ops)
             kind = rng.choice(('add', 'add', 'mul', 'mul', 'mul', 'max', 'min', 'and', 'or'))
             stmts = [('let', 'o%d' % i, r) for i, r in enumerate(ops)]
             regs = ['$o%d' % i for i in range(n)]
@@ -178,16 +211,22 @@ def _only_numeric_base_sum_exponent_differs(t0, t1):
     import json
 
     def split(t):
-        if t[0] != 'Mul':
+        if t[0] == 'Pow':
+            terms = [['term', t[1], t[2]]]
+        elif t[0] == 'Mul':
+            terms = t[2:]
+        else:
             return None
         rest, special = [], 0
-        for term in t[2:]:
+        for term in terms:
             base, ex = term[1], term[2]
-            if base[0] in ('Integer', 'Rational'):
-                if ex[0] == 'Add':
-                    special += 1
+            if base[0] in ('Integer', 'Rational', 'Complex'):
+                if ex[0] not in ('Integer', 'Rational'):
+                    special += 1       # numeric base with a symbolic exponent (sum or not)
+                else:
+                    rest.append(json.dumps([base, ex], sort_keys=True))
             else:
-                rest.append(json.dumps(term, sort_keys=True))
+                rest.append(json.dumps([base, ex], sort_keys=True))
         return sorted(rest), special
     a, b = split(t0), split(t1)
     if a is None or b is None:
